@@ -5,7 +5,8 @@ import common, runner, families2
 def run(tier):
     rep = common.Report('C01', tier, 'translation_validation')
     common.build_driver()
-    progs = list(families2.all_core(tier))
+    import families3
+    progs = list(families2.all_core(tier)) + list(families3.g_deep(tier))
     import families
     progs += [p for p in families.g_peep(tier) if p.pid.startswith(('peep/a/', 'peep/f/', 'peep/f2/'))]      # aliasing and flag-interplay sequences
     stats, samples, results = runner.against_reference(rep, progs)
@@ -17,7 +18,7 @@ def run(tier):
                    equal_only_under_W8=stats['equal_only_under_W8'], unsupported=stats['unsupported'], unsupported_reasons=un,
                    bound_hits=stats['bound_hits'], queries=stats['queries'], solver_s=round(stats['solver_s'], 1),
                    compile_s=stats['compile_s'], solve_wall_s=stats['solve_wall_s'],
-                   bounds=dict(families='G-expr, G-cond, G-ctl, G-call, pointer/index aliasing and flag-interplay sequences', max_backward_jumps_per_path=40, array_sizes='<=4', levels=['-O1', '-O0']),
+                   bounds=dict(families='G-expr, G-cond, G-ctl, G-call, G-deep (shapes chosen from a coverage run of the generator), pointer/index aliasing and flag-interplay sequences', max_backward_jumps_per_path=40, array_sizes='<=4', levels=['-O1', '-O0']),
                    stats=dict(stats))
     rep.assumptions = ['A-ptr, A-dec, A-stk as in C02', 'A-idx: array indices are in range (out-of-range indexing is undefined in C)',
                        'bracketing oracle: a program is a violation only if the emitted code differs from BOTH the ISO reading (16-bit int promotion) and the W8 reading (evaluate at the widest operand/destination width)',
